@@ -438,7 +438,9 @@ def gen_matching_case(r: random.Random, max_n: int = 24, force_2d: Optional[bool
         spread = r.choice([5.0, 30.0, 80.0])
         for k in range(n_gt):
             w, l, h = O.rand_size(r) if r.random() < 0.15 else (r.uniform(0.5, 2.5), r.uniform(0.5, 6), r.uniform(1, 3))
-            lab = "false_positive" if (fpv or r.random() < 0.12) else r.choice(labs + (["unknown"] if r.random() < 0.1 else []))
+            # FP validation data may also hold ordinarily labelled ground truth (the task changes what is kept, not how
+            # pairs are formed)
+            lab = "false_positive" if ((fpv and r.random() < 0.75) or r.random() < 0.12) else r.choice(labs + (["unknown"] if r.random() < 0.1 else []))
             gts_e.append(O.obj3d(r.uniform(-spread, spread), r.uniform(-spread, spread), r.uniform(-1, 1), O.rand_yaw(r), w, l, h, lab, uuid=f"g{k}", npts=r.randint(0, 50)))
         for k in range(n_est):
             coincident_with = None
